@@ -10,9 +10,9 @@ from hypothesis import strategies as st
 
 from harness import gen
 
-DEVS = ["A", "B", "A", "C"]
-PROPS = ["P", "Q", "R"]
-ELEMS = ["x", "y", "z", "w"]
+DEVS = ["A", "B", "A", "AB"]  # AB: a name that contains another name
+PROPS = ["P", "PQ", "R"]
+ELEMS = ["x", "xy", "z", "w"]
 KINDS = gen.VKINDS
 
 value_by_kind = {
